@@ -1,6 +1,6 @@
 (* C06 - lemmas about the likelihood model Lik/NLL.v *)
 From Coq Require Import Reals List Lra Lia Permutation.
-From TFV Require Import Base.RSum Base.RSum_proofs Lik.NLL.
+From TFV Require Import Base.RBase Base.RSum Base.RSum_proofs Lik.NLL.
 Import ListNotations.
 Open Scope R_scope.
 
@@ -15,3 +15,58 @@ Proof. intros H. unfold clip_log. destruct (Rlt_dec eps_clip x); [lra | reflexiv
 
 Lemma map_clip_log_hi f : Forall (fun x => eps_clip < x) f -> map clip_log f = map ln f.
 Proof. induction 1 as [|x f Hx _ IH]; cbn [map]; [reflexivity|]. rewrite IH, (clip_log_hi x Hx). reflexivity. Qed.
+
+Lemma rmin_Rmin a b : rmin a b = Rmin a b.
+Proof.
+  unfold rmin, Rmin. destruct (Rle_dec a b) as [H|H].
+  - rewrite Rabs_left1 by lra. lra.
+  - rewrite Rabs_right by lra. lra.
+Qed.
+
+(* the branch-free form is the same function, for every x *)
+Lemma clip_log_abs_eq x : clip_log x = clip_log_abs x.
+Proof.
+  unfold clip_log, clip_log_abs. rewrite rmax_Rmax, rmin_Rmin.
+  destruct (Rlt_dec eps_clip x) as [H|H].
+  - rewrite Rmax_left by lra. rewrite Rmin_right by lra.
+    replace (eps_clip - eps_clip) with 0 by lra. unfold Rdiv. rewrite !Rmult_0_l. lra.
+  - rewrite Rmax_right by lra. rewrite Rmin_left by lra. reflexivity.
+Qed.
+
+Lemma map_clip_log_abs f : map clip_log f = map clip_log_abs f.
+Proof. apply map_ext. exact clip_log_abs_eq. Qed.
+
+(* ---- list closeness ---- *)
+
+Lemma sqdist_nonneg a b : 0 <= sqdist a b.
+Proof.
+  revert b. induction a as [|x a IH]; intros [|y b]; cbn [sqdist]; try lra.
+  specialize (IH b). pose proof (Rle_0_sqr (x - y)) as Q. unfold Rsqr in Q. lra.
+Qed.
+
+Lemma sqdist_close t a b : 0 <= t -> sqdist a b <= t * t -> length a = length b -> close_list t a b.
+Proof.
+  intros Ht. revert b. induction a as [|x a IH]; intros [|y b] H L; cbn [length] in L; try discriminate.
+  - exact I.
+  - cbn [sqdist] in H. cbn [close_list]. pose proof (sqdist_nonneg a b) as P. split.
+    + assert (Q : (x - y) * (x - y) <= t * t) by lra. apply Rabs_le. split; nra.
+    + pose proof (Rle_0_sqr (x - y)) as Q. unfold Rsqr in Q. apply IH; [lra | injection L; auto].
+Qed.
+
+Lemma shortfall_nonneg c l : 0 <= shortfall c l.
+Proof.
+  unfold shortfall. induction l as [|x l IH]; cbn [map rsum]; [lra|].
+  rewrite rmax_Rmax. pose proof (Rmax_l 0 (2 * c - x)). lra.
+Qed.
+
+Lemma shortfall_gt c l : 0 < c -> shortfall c l <= c / 2 -> Forall (fun x => c < x) l.
+Proof.
+  intros Hc. induction l as [|x l IH]; intros H; [constructor|].
+  unfold shortfall in H. cbn [map rsum] in H. fold (shortfall c l) in H.
+  pose proof (shortfall_nonneg c l) as P.
+  rewrite rmax_Rmax in H. pose proof (Rmax_r 0 (2 * c - x)) as Q. pose proof (Rmax_l 0 (2 * c - x)) as Q0.
+  constructor; [lra|]. apply IH. lra.
+Qed.
+
+Lemma map_clip_log_shortfall f : shortfall eps_clip f <= eps_clip / 2 -> map clip_log f = map ln f.
+Proof. intros H. apply map_clip_log_hi, shortfall_gt; [unfold eps_clip; lra | exact H]. Qed.
